@@ -342,6 +342,20 @@ def site_writer_conventions(ctx, rid):
                     return got, want, "row r of the written block = signs[r] x source row permutation[r] (index with the permutation first, then scale)"
 
                 _run(ctx, rid, f, e, f"{short} writer, {attr}", thunk)
+    # the permutation used as a store index scatters (inverse permutation)
+    for short in ("fchk", "molden", "molekel", "wfn", "wfx"):
+        do = prog.format_op(short, "dump_one")
+        for f in [do] + [g for g in prog.callees_closure([do]) if g.module is do.module and g is not do]:
+            pv_names = set()
+            for nd in f.own_nodes():
+                if isinstance(nd, ast.Assign) and isinstance(nd.value, ast.Call) and len(nd.targets) == 1 and isinstance(nd.targets[0], ast.Tuple) and len(nd.targets[0].elts) == 2:
+                    cs = next((c for c in f.calls if c.node is nd.value), None)
+                    if cs is not None and cc in cs.callees and isinstance(nd.targets[0].elts[0], ast.Name):
+                        pv_names.add(nd.targets[0].elts[0].id)
+            for nd in f.own_nodes():
+                if isinstance(nd, ast.Subscript) and isinstance(nd.ctx, ast.Store) and any(isinstance(x, ast.Name) and x.id in pv_names for x in ast.walk(nd.slice)):
+                    n += 1
+                    ctx.violate(rid, f"{short} writer stores through the permutation (`{src_of(nd)} = ...`): rows are scattered, i.e. the inverse permutation is applied; written row r must be signs[r] x source row permutation[r]", f, nd)
     if n < 8:
         raise AnalysisError(f"only {n} convention-application expressions found in the wavefunction writers (expected >= 8)")
 
